@@ -42,3 +42,53 @@ package coroutines
 //@ requires c != nil && r != nil && r.CreatePromise != nil && r.Kind == t_api.CreatePromise
 //@ ensures (res != nil) != (err != nil)
 //@ ensures err == nil ==> res.Kind == t_api.CreatePromise && res.CreatePromise != nil && create_post(res.CreatePromise.Status, res.CreatePromise.Promise, r.CreatePromise)
+
+//@ func AcquireLock
+//@ props C02 C09
+//@ ghostdb coroutine
+//@ overflow C09
+//@ requires c != nil && r != nil && r.AcquireLock != nil
+//@ ensures (res != nil) != (err != nil)
+//@ ensures err == nil ==> res.Kind == t_api.AcquireLock && res.AcquireLock != nil
+//@ ensures err == nil ==> linearizes(seq.acquire(pre_locks(r.AcquireLock.ResourceId), post_locks(r.AcquireLock.ResourceId), T, res.AcquireLock.Status, r.AcquireLock.ResourceId, r.AcquireLock.ExecutionId, r.AcquireLock.ProcessId, r.AcquireLock.Ttl) && (res.AcquireLock.Status == t_api.StatusCreated ==> res.AcquireLock.Lock != nil && lview(res.AcquireLock.Lock) == lview.row(post_locks(r.AcquireLock.ResourceId))))
+
+//@ func ReleaseLock
+//@ props C02 C09
+//@ ghostdb coroutine
+//@ requires c != nil && r != nil && r.ReleaseLock != nil
+//@ ensures (res != nil) != (err != nil)
+//@ ensures err == nil ==> res.Kind == t_api.ReleaseLock && res.ReleaseLock != nil
+//@ ensures err == nil ==> linearizes(seq.release(pre_locks(r.ReleaseLock.ResourceId), post_locks(r.ReleaseLock.ResourceId), res.ReleaseLock.Status, r.ReleaseLock.ExecutionId))
+
+//@ func HeartbeatLocks
+//@ props C02 C09
+//@ ghostdb coroutine
+//@ requires c != nil && r != nil && r.HeartbeatLocks != nil
+//@ ensures (res != nil) != (err != nil)
+//@ ensures err == nil ==> res.Kind == t_api.HeartbeatLocks && res.HeartbeatLocks != nil && res.HeartbeatLocks.Status == t_api.StatusOK
+//@ ensures err == nil ==> linearizes(post_locks(anykey("hb")) == spec.HeartbeatLocks.locks(pre_locks(anykey("hb")), anykey("hb"), r.HeartbeatLocks.ProcessId, T) && res.HeartbeatLocks.LocksAffected == count_pre("locks", "lock.ofproc", r.HeartbeatLocks.ProcessId))
+
+//@ func ClaimTask
+//@ props C02 C07
+//@ ghostdb coroutine
+//@ overflow C07
+//@ requires c != nil && r != nil && r.ClaimTask != nil && r.ClaimTask.ProcessId != "" && r.ClaimTask.Ttl >= 0
+//@ ensures (res != nil) != (err != nil)
+//@ ensures err == nil ==> res.Kind == t_api.ClaimTask && res.ClaimTask != nil
+//@ ensures err == nil ==> linearizes(seq.claim(pre_tasks(r.ClaimTask.Id), post_tasks(r.ClaimTask.Id), T, res.ClaimTask.Status, r.ClaimTask.Counter, r.ClaimTask.ProcessId, r.ClaimTask.Ttl) && (res.ClaimTask.Status == t_api.StatusCreated ==> res.ClaimTask.Task != nil && tview(res.ClaimTask.Task) == tview.row(post_tasks(r.ClaimTask.Id))))
+
+//@ func CompleteTask
+//@ props C02 C07
+//@ ghostdb coroutine
+//@ requires c != nil && r != nil && r.CompleteTask != nil
+//@ ensures (res != nil) != (err != nil)
+//@ ensures err == nil ==> res.Kind == t_api.CompleteTask && res.CompleteTask != nil
+//@ ensures err == nil ==> linearizes(seq.completetask(pre_tasks(r.CompleteTask.Id), post_tasks(r.CompleteTask.Id), T, res.CompleteTask.Status, r.CompleteTask.Counter) && (res.CompleteTask.Status == t_api.StatusCreated || res.CompleteTask.Status == t_api.StatusOK ==> res.CompleteTask.Task != nil && tview(res.CompleteTask.Task) == tview.row(post_tasks(r.CompleteTask.Id))))
+
+//@ func HeartbeatTasks
+//@ props C02 C07
+//@ ghostdb coroutine
+//@ requires c != nil && r != nil && r.HeartbeatTasks != nil
+//@ ensures (res != nil) != (err != nil)
+//@ ensures err == nil ==> res.Kind == t_api.HeartbeatTasks && res.HeartbeatTasks != nil && res.HeartbeatTasks.Status == t_api.StatusOK
+//@ ensures err == nil ==> linearizes(post_tasks(anykey("hb")) == spec.HeartbeatTasks.tasks(pre_tasks(anykey("hb")), anykey("hb"), r.HeartbeatTasks.ProcessId, T) && res.HeartbeatTasks.TasksAffected == count_pre("tasks", "task.heldby", r.HeartbeatTasks.ProcessId))
